@@ -1,7 +1,7 @@
 (** C20 — property theorems only: statement, [exact] of a lemma proved elsewhere, [Print Assumptions].
     Model: Model/C20_Loop.v (mirrors RecurrentSelectionBreedingProgram.initialize/reset/advance/evolve on an explicit
     heap; operators and logbook are arbitrary heap transformers, [opset]). *)
-From PV Require Import Lib.Common Model.C20_Loop Proofs.C20_Loop Proofs.C20_Chain Proofs.C20_Heap Proofs.C20_Indep Proofs.C20_Main.
+From PV Require Import Lib.Common Model.C20_Loop Proofs.C20_Loop Proofs.C20_Chain Proofs.C20_Heap Proofs.C20_Indep Proofs.C20_Fresh Proofs.C20_Main.
 Local Open Scope nat_scope.
 
 (** Call order, time index, replicate counter — for ALL operators/logbooks, ALL counts, ALL states: the calls of
@@ -63,6 +63,16 @@ Theorem C20_start_never_modified_replicates_equal : forall h0 start ops strict i
   end.
 Proof. intros h0 start ops strict initres calls lo st Hwf Hl Hi Ho Hlo Hinv. exact (start_and_replicates h0 start Hwf Hl Hi ops Ho strict initres calls lo st Hlo Hinv). Qed.
 Print Assumptions C20_start_never_modified_replicates_equal.
+
+(** ... and, replicate by replicate: the trace of n replicates splits into per-replicate traces, each of which begins with
+    reset followed by evaluate at t_cur = 0 on containers carrying the start contents whose locations (containers and
+    leaves) did not exist when THAT replicate was entered — they are disjoint from the start state, from every earlier
+    replicate's working copies and from whatever the operators remembered ([starts_fresh], [rep_traces]) *)
+Theorem C20_replicates_each_fresh : forall h0 start ops ngen li n lo st,
+  start_wf h0 start -> length start = 5 -> ops_wb ops -> (lo <= 1)%Z -> inv h0 start false lo st ->
+  rep_traces h0 start (p_heap st) n (snd (fst (iter n (replicate ops ngen li) st))).
+Proof. intros h0 start ops ngen li n lo st Hwf Hl Ho Hlo Hi. exact (replicates_each_fresh h0 start Hwf Hl ops Ho ngen li n lo st Hlo Hi). Qed.
+Print Assumptions C20_replicates_each_fresh.
 
 (** the protected region really is the start state: every start container, every leaf it holds, hence its contents *)
 Theorem C20_start_region_covers : forall h0 start h d,
